@@ -3,12 +3,14 @@
    read_continuation, the re-parse loop of read_command
    (pymap/imap/__init__.py), Commands.parse (pymap/parsing/commands.py:
    Tag, Space, command word looked up upper-cased) and the argument parsers of
-   the commands whose arguments are astrings / mailboxes only:
-   LOGIN (LoginCommand.parse), DELETE SUBSCRIBE UNSUBSCRIBE
-   (CommandMailboxArg.parse), NOOP CAPABILITY LOGOUT STARTTLS CHECK CLOSE
-   (CommandNoArgs.parse).  Definitions only. *)
+   the commands built from astrings, mailboxes, list-mailbox patterns, sequence
+   sets and status attribute lists:
+   LOGIN; DELETE SUBSCRIBE UNSUBSCRIBE (CommandMailboxArg.parse); CREATE SELECT
+   EXAMINE RENAME (with the ExtensionOptions slot, modelled when no option list
+   is given); STATUS; LIST LSUB; COPY MOVE; NOOP CAPABILITY LOGOUT STARTTLS
+   CHECK CLOSE (CommandNoArgs.parse).  Definitions only. *)
 From PV Require Import Base.Prelude Base.Decimal.
-From PV Require Export Wire.Lex Wire.Strings Wire.ModUtf7.
+From PV Require Export Wire.Lex Wire.Strings Wire.ModUtf7 Wire.SeqSet.
 
 Local Open Scope N_scope.
 
@@ -33,8 +35,11 @@ Definition parse_endline (b : bytes) : option bytes :=
   end.
 
 (* ------------------------------------------------------------ arguments *)
-Inductive argkind := AStr | AMbox.
-Inductive argval := VStr (v : bytes) | VMbox (name : list N).
+Inductive rawkind := RSeq | RAttrs.      (* SequenceSet | List of StatusAttribute *)
+Inductive argkind := AStr | AMbox | AListMb | ARaw (r : rawkind).
+Inductive argval :=
+| VStr (v : bytes) | VMbox (name : list N) | VPat (pat : list N)
+| VSeq (s : seqset) | VAttrs (l : list bytes).
 
 (* what Mailbox.parse makes of the astring value v; None: NotParseable
    (modutf7_decode raised UnicodeError) *)
@@ -45,31 +50,117 @@ Definition mbox_of_bytes (v : bytes) : option (list N) :=
        | _ => None
        end.
 
+(* ListCommand: the pattern is modutf7-decoded, no INBOX normalisation *)
+Definition pat_of_bytes (v : bytes) : option (list N) :=
+  match modutf7_decode v with Ok s => Some s | _ => None end.
+
 Definition interp (k : argkind) (v : bytes) : option argval :=
   match k with
   | AStr => Some (VStr v)
   | AMbox => option_map VMbox (mbox_of_bytes v)
+  | AListMb => option_map VPat (pat_of_bytes v)
+  | ARaw _ => None
   end.
 
-(* Space, AString|Mailbox, ..., EndLine *)
-Fixpoint parse_args (kinds : list argkind) (p : sparams) (cs : list bytes) (b : bytes)
-  : pres (list argval) :=
+(* --- StatusAttribute and the parenthesised list of them (List.parse) *)
+Definition s_MESSAGES : bytes := [77; 69; 83; 83; 65; 71; 69; 83].
+Definition s_RECENT : bytes := [82; 69; 67; 69; 78; 84].
+Definition s_UIDNEXT : bytes := [85; 73; 68; 78; 69; 88; 84].
+Definition s_UIDVALIDITY : bytes := [85; 73; 68; 86; 65; 76; 73; 68; 73; 84; 89].
+Definition s_UNSEEN : bytes := [85; 78; 83; 69; 69; 78].
+Definition s_MAILBOXID : bytes := [77; 65; 73; 76; 66; 79; 88; 73; 68].
+Definition valid_statuses : list bytes :=
+  [s_MESSAGES; s_RECENT; s_UIDNEXT; s_UIDVALIDITY; s_UNSEEN; s_MAILBOXID].
+Definition bytes_in (x : bytes) (l : list bytes) : bool := existsb (bytes_eqb x) l.
+
+(* StatusAttribute.parse: optional Space, Atom, upper-cased name in the set *)
+Definition parse_status_attr (b : bytes) : option (bytes * bytes) :=
+  let b1 := match parse_space b with Some r => r | None => b end in
+  match parse_atom b1 with
+  | Some (a, r) => if bytes_in (upper_bytes a) valid_statuses then Some (upper_bytes a, r) else None
+  | None => None
+  end.
+
+(*  b' *\)'  *)
+Definition list_end (b : bytes) : option bytes :=
+  match skip_spaces b with c :: r => if c =? RPAREN then Some r else None | [] => None end.
+
+(* the while loop of List.parse (no list_limit); fuel = length of the buffer + 1 *)
+Fixpoint attr_loop (fuel : nat) (b : bytes) (acc : list bytes) : result (list bytes * bytes) :=
+  match fuel with
+  | O => OutOfFuel
+  | S f =>
+    match list_end b with
+    | Some r => Ok (rev acc, r)
+    | None =>
+      if (match acc with [] => false | _ => true end) && negb (head_sat (N.eqb SP) b)
+      then NotParseable
+      else match parse_status_attr b with
+           | Some (a, r) => attr_loop f r (a :: acc)
+           | None => NotParseable
+           end
+    end
+  end.
+
+(* List.parse(expected=[StatusAttribute]) and StatusCommand's non-empty check *)
+Definition parse_attr_list (b : bytes) : result (list bytes * bytes) :=
+  match skip_spaces b with
+  | c :: r =>
+    if c =? LPAREN then
+      match attr_loop (S (length r)) r [] with
+      | Ok ([], _) => NotParseable
+      | x => x
+      end
+    else NotParseable
+  | [] => NotParseable
+  end.
+
+Definition raw_parse (r : rawkind) (b : bytes) : result (argval * bytes) :=
+  match r with
+  | RSeq => bind (parse_seqset b) (fun sr => Ok (VSeq (fst sr), snd sr))
+  | RAttrs => bind (parse_attr_list b) (fun lr => Ok (VAttrs (fst lr), snd lr))
+  end.
+
+(* ExtensionOptions.parse then EndLine.parse; an option list (an opening
+   parenthesis after optional spaces) is outside this model: None *)
+Definition parse_tail (opts : bool) (b : bytes) : option (option bytes) :=
+  if opts && head_sat (N.eqb LPAREN) (skip_spaces b) then None
+  else Some (parse_endline b).
+
+(* Space, argument, ..., [ExtensionOptions], EndLine.
+   POk None: the command line is outside the modelled fragment *)
+Fixpoint parse_args (kinds : list argkind) (opts : bool) (p : sparams) (cs : list bytes) (b : bytes)
+  : pres (option (list argval)) :=
   match kinds with
   | [] =>
-    match parse_endline b with
-    | Some r => POk [] r cs
-    | None => PFail
+    match parse_tail opts b with
+    | None => POk None [] cs
+    | Some (Some r) => POk (Some []) r cs
+    | Some None => PFail
     end
   | k :: ks =>
     match parse_space b with
     | None => PFail
     | Some b1 =>
-      pbind (parse_astring p cs b1) (fun vr b2 cs2 =>
-        match interp k (fst vr) with
-        | Some a =>
-          pbind (parse_args ks p cs2 b2) (fun l b3 cs3 => POk (a :: l) b3 cs3)
-        | None => PFail
-        end)
+      let continue (a : argval) (b2 : bytes) (cs2 : list bytes) :=
+        pbind (parse_args ks opts p cs2 b2) (fun l b3 cs3 =>
+          POk (option_map (cons a) l) b3 cs3) in
+      match k with
+      | ARaw r =>
+        match raw_parse r b1 with
+        | Ok (a, b2) => continue a b2 cs
+        | _ => PFail
+        end
+      | _ =>
+        pbind (match k with
+               | AListMb => parse_cstring listmb_char p cs b1
+               | _ => parse_astring p cs b1
+               end) (fun vr b2 cs2 =>
+          match interp k (fst vr) with
+          | Some a => continue a b2 cs2
+          | None => PFail
+          end)
+      end
     end
   end.
 
@@ -84,14 +175,30 @@ Definition w_LOGOUT : bytes := [76; 79; 71; 79; 85; 84].
 Definition w_STARTTLS : bytes := [83; 84; 65; 82; 84; 84; 76; 83].
 Definition w_CHECK : bytes := [67; 72; 69; 67; 75].
 Definition w_CLOSE : bytes := [67; 76; 79; 83; 69].
+Definition w_CREATE : bytes := [67; 82; 69; 65; 84; 69].
+Definition w_SELECT : bytes := [83; 69; 76; 69; 67; 84].
+Definition w_EXAMINE : bytes := [69; 88; 65; 77; 73; 78; 69].
+Definition w_RENAME : bytes := [82; 69; 78; 65; 77; 69].
+Definition w_STATUS : bytes := [83; 84; 65; 84; 85; 83].
+Definition w_LIST : bytes := [76; 73; 83; 84].
+Definition w_LSUB : bytes := [76; 83; 85; 66].
+Definition w_COPY : bytes := [67; 79; 80; 89].
+Definition w_MOVE : bytes := [77; 79; 86; 69].
 
-(* the modelled part of Commands.commands: upper-cased word -> argument kinds *)
-Definition cmd_table : list (bytes * list argkind) :=
-  [ (w_LOGIN, [AStr; AStr]); (w_DELETE, [AMbox]); (w_SUBSCRIBE, [AMbox]);
-    (w_UNSUBSCRIBE, [AMbox]); (w_NOOP, []); (w_CAPABILITY, []); (w_LOGOUT, []);
-    (w_STARTTLS, []); (w_CHECK, []); (w_CLOSE, []) ].
+(* the modelled part of Commands.commands: upper-cased word -> (argument
+   kinds, has an ExtensionOptions slot before the end of the line) *)
+Definition shape : Type := list argkind * bool.
+Definition cmd_table : list (bytes * shape) :=
+  [ (w_LOGIN, ([AStr; AStr], false)); (w_DELETE, ([AMbox], false));
+    (w_SUBSCRIBE, ([AMbox], false)); (w_UNSUBSCRIBE, ([AMbox], false));
+    (w_CREATE, ([AMbox], true)); (w_SELECT, ([AMbox], true)); (w_EXAMINE, ([AMbox], true));
+    (w_RENAME, ([AMbox; AMbox], true)); (w_STATUS, ([AMbox; ARaw RAttrs], false));
+    (w_LIST, ([AMbox; AListMb], false)); (w_LSUB, ([AMbox; AListMb], false));
+    (w_COPY, ([ARaw RSeq; AMbox], false)); (w_MOVE, ([ARaw RSeq; AMbox], false));
+    (w_NOOP, ([], false)); (w_CAPABILITY, ([], false)); (w_LOGOUT, ([], false));
+    (w_STARTTLS, ([], false)); (w_CHECK, ([], false)); (w_CLOSE, ([], false)) ].
 
-Fixpoint lookup (w : bytes) (t : list (bytes * list argkind)) : option (list argkind) :=
+Fixpoint lookup (w : bytes) (t : list (bytes * shape)) : option shape :=
   match t with
   | [] => None
   | (n, ks) :: t' => if bytes_eqb w n then Some ks else lookup w t'
@@ -99,11 +206,12 @@ Fixpoint lookup (w : bytes) (t : list (bytes * list argkind)) : option (list arg
 
 Inductive command :=
 | CmdInvalid                                    (* InvalidCommand *)
-| Cmd (tag name : bytes) (args : list argval).
+| Cmd (tag name : bytes) (args : list argval)
+| CmdOutside.                                   (* not in the modelled fragment *)
 
-(* Commands.parse, for a table of commands of the modelled shape; a word that
+(* Commands.parse, for a table of commands of the modelled shapes; a word that
    is not in [table] gives InvalidCommand *)
-Definition parse_command (table : list (bytes * list argkind))
+Definition parse_command (table : list (bytes * shape))
     (p : sparams) (cs : list bytes) (b : bytes) : pres command :=
   match parse_class tag_char b with
   | None => POk CmdInvalid [] cs
@@ -117,9 +225,10 @@ Definition parse_command (table : list (bytes * list argkind))
         let name := upper_bytes w in
         match lookup name table with
         | None => POk CmdInvalid [] cs
-        | Some kinds =>
-          match parse_args kinds p cs b3 with
-          | POk args rest cs' => POk (Cmd tag name args) rest cs'
+        | Some (kinds, opts) =>
+          match parse_args kinds opts p cs b3 with
+          | POk (Some args) rest cs' => POk (Cmd tag name args) rest cs'
+          | POk None rest cs' => POk CmdOutside rest cs'
           | PFail => POk CmdInvalid [] cs
           | PNeed n => PNeed n
           end
@@ -213,41 +322,69 @@ Fixpoint reparse_loop (fuel : nat) (parse : list bytes -> bytes -> pres command)
     end
   end.
 
-Definition read_command (table : list (bytes * list argkind)) (p : sparams) (s : bytes)
+Definition read_command (table : list (bytes * shape)) (p : sparams) (s : bytes)
   : result (command * bytes * nat) :=
   bind (conn_readline s) (fun ls =>
     reparse_loop (S (length (snd ls))) (parse_command table p) (fst ls) [] (snd ls) 0).
 
 (* ------------------------------------------------- the client's side *)
-(* One argument as a client writes it: spaces, then the value in one of its
-   spellings.  In the byte stream the payload of a synchronizing literal
-   follows its prefix directly (the client sends it after the server's
-   continuation request). *)
+(* One argument as a client writes it.  A string argument: spaces, then the
+   value in one of its spellings (in the byte stream the payload of a
+   synchronizing literal follows its prefix directly: the client sends it after
+   the server's continuation request).  A raw argument (sequence set,
+   attribute list): spaces, then its text. *)
 Record sparg := { sa_spaces : nat; sa_sp : spelling; sa_val : bytes }.
+Inductive warg := WStr (a : sparg) | WRaw (k : nat) (x : bytes) (v : argval).
 
-Definition arg_wire (a : sparg) : bytes :=
-  repeat SP (sa_spaces a) ++
-  match sa_sp a with
-  | SpLit => lit_prefix false (blen (sa_val a)) ++ sa_val a
-  | sp => spell_line sp (sa_val a)
+Definition arg_wire (w : warg) : bytes :=
+  match w with
+  | WStr a =>
+    repeat SP (sa_spaces a) ++
+    match sa_sp a with
+    | SpLit => lit_prefix false (blen (sa_val a)) ++ sa_val a
+    | sp => spell_line sp (sa_val a)
+    end
+  | WRaw k x _ => repeat SP k ++ x
   end.
 
 Definition eol_bytes (crlf : bool) : bytes := if crlf then [CR; LF] else [LF].
 
 (* tag, kw spaces, the command word as typed, the arguments, ke spaces, end of line *)
-Definition cmd_wire (tag : bytes) (kw : nat) (w : bytes) (args : list sparg)
+Definition cmd_wire (tag : bytes) (kw : nat) (w : bytes) (args : list warg)
     (ke : nat) (crlf : bool) : bytes :=
   tag ++ repeat SP kw ++ w ++ flat_map arg_wire args ++ repeat SP ke ++ eol_bytes crlf.
 
-Definition arg_ok (p : sparams) (a : sparg) : Prop :=
-  (1 <= sa_spaces a)%nat /\ spelling_ok p (sa_sp a) (sa_val a) = true.
+(* no LF inside / the last byte, if any, is neither a closing brace nor CR *)
+Definition lf_free (x : bytes) : Prop := forallb (fun c => negb (c =? LF)) x = true.
+Definition safe_end (x : bytes) : Prop :=
+  match rev x with [] => True | c :: _ => c <> RBRACE /\ c <> CR end.
+
+(* what may follow an argument on the wire: a space or the end of the line *)
+Definition follow_ok (rest : bytes) : Prop :=
+  match rest with c :: _ => c = SP \/ c = CR \/ c = LF | [] => False end.
+
+(* the atom class of the position: astring characters, or list-mailbox ones *)
+Definition kind_class (k : argkind) : N -> bool :=
+  match k with AListMb => listmb_char | _ => astring_char end.
+
+(* argument w is a legal way of writing an argument of kind k *)
+Definition arg_ok (p : sparams) (k : argkind) (w : warg) : Prop :=
+  match k, w with
+  | ARaw r, WRaw n x v =>
+    (1 <= n)%nat /\ x <> [] /\ head_sat (N.eqb SP) x = false /\ lf_free x /\ safe_end x /\
+    (forall rest, follow_ok rest -> raw_parse r (x ++ rest) = Ok (v, rest))
+  | ARaw _, WStr _ => False
+  | _, WStr a => (1 <= sa_spaces a)%nat /\ spelling_okc (kind_class k) p (sa_sp a) (sa_val a) = true
+  | _, WRaw _ _ _ => False
+  end.
 
 (* the argument values the command gets: arity must match, mailboxes decode *)
-Fixpoint interp_all (kinds : list argkind) (vs : list bytes) : option (list argval) :=
-  match kinds, vs with
+Fixpoint interp_all (kinds : list argkind) (ws : list warg) : option (list argval) :=
+  match kinds, ws with
   | [], [] => Some []
-  | k :: ks, v :: vs' =>
-    match interp k v, interp_all ks vs' with
+  | k :: ks, w :: ws' =>
+    match (match w with WStr a => interp k (sa_val a) | WRaw _ _ v => Some v end),
+          interp_all ks ws' with
     | Some a, Some l => Some (a :: l)
     | _, _ => None
     end
@@ -255,5 +392,6 @@ Fixpoint interp_all (kinds : list argkind) (vs : list bytes) : option (list argv
   end.
 
 (* continuation requests the server sends: one per synchronizing literal *)
-Definition count_sync (args : list sparg) : nat :=
-  length (filter (fun a => match sa_sp a with SpLit => true | _ => false end) args).
+Definition is_sync (w : warg) : bool :=
+  match w with WStr a => match sa_sp a with SpLit => true | _ => false end | WRaw _ _ _ => false end.
+Definition count_sync (args : list warg) : nat := length (filter is_sync args).
